@@ -103,3 +103,59 @@ PROPS["C17"] = {
               "text": "Generated-input search over byte strings: every 1-2 byte string (and every 3-byte string in thorough) alone and before a valid event; structure-aware malformed CBOR (lying lengths, reserved additional info, misplaced breaks, wrong tag content, deep nesting); mutated logger output; and every cut offset of generated valid streams. Each call must return without any panic escaping, allocate no more than 64 KiB + 64 x input, decode all whole events of a prefix exactly as in the full stream and report a partial trailing event as an error. Held on everything explored.",
               "note": "Trusts Go runtime memory statistics, cborref (classification only). Native fuzzing cannot be seeded; its saved inputs are the reproducible unit."},
 }
+
+PROPS["C04"] = {
+    "jobs": [
+        {"name": "grid", "pkg": "./c04", "run": "^(TestLevelGrid)$", "shards": T(4, 16), "timeout": T(600, 3600)},
+        {"name": "named", "pkg": "./c04", "run": "^(TestNamedMethods|TestLevelText|TestPanicBehaviour|TestFatalBehaviour)$"},
+        {"name": "random", "pkg": "./c04", "run": "^TestRandomTriples$", "rapid": T(50000, 500000)},
+        {"name": "inert", "pkg": "./c04", "run": "^TestFilteredEventsInert$", "rapid": T(20000, 200000), "shards": T(1, 8)},
+        {"name": "inert-all", "pkg": "./c04", "run": "^TestFilteredEventsInertAllMethods$", "rapid": T(15, 200), "replay": "^TestReplay$"},
+    ],
+    "assumptions": ["the global level is process state: jobs run in separate processes and restore TraceLevel",
+                    "Fatal paths are observed by re-executing the test binary (exit status and output)",
+                    "a filtered event is the nil *Event returned by the level methods / Discard(); a non-nil event kept after Discard() is not covered by the statement"],
+    "claim": {"ref": "DESIGN.md §5 C04", "technique": "exhaustive enumeration of the level grid + reflection-driven property-based testing of every *Event method on filtered events + re-exec for Fatal; oracle: iff-formula, call counters",
+              "text": "Generated-input search: the (logger, global, event) level grid is enumerated (all 256^3 in thorough) against the iff-formula, with a call-recording sampler (never consulted when a gate rejects); every exported *Event method found by reflection is invoked, with instrumented arguments, on filtered events of six origins and must neither panic, nor call back, nor write, nor return a live event; Level text forms round-trip for all 256 levels; Panic/Fatal/WithLevel(Panic|Fatal) behaviour is observed directly (Fatal in a re-executed child). Held on everything explored.",
+              "note": "Trusts reflect and os/exec. Methods added to *Event later are picked up automatically; an argument type without a generator makes the check inconclusive, not green."},
+}
+
+PROPS["C13"] = {
+    "jobs": [
+        {"name": "exhaustive", "pkg": "./c13", "run": "^(TestExhaustiveBurst|TestExhaustiveBasic)$", "shards": T(4, 16), "timeout": T(600, 3600)},
+        {"name": "compositions", "pkg": "./c13", "run": "^TestRapidCompositions$", "rapid": T(20000, 100000), "shards": T(1, 8), "replay": "^TestReplay$"},
+        {"name": "logger", "pkg": "./c13", "run": "^TestRapidThroughLogger$", "rapid": T(10000, 60000), "shards": T(1, 8)},
+        {"name": "concurrent", "pkg": "./c13", "run": "^TestConcurrentBasic$", "rapid": T(300, 3000), "shards": T(1, 4)},
+        {"name": "concurrent-race", "pkg": "./c13", "race": True, "run": "^TestConcurrentBasic$", "rapid": T(60, 600)},
+    ],
+    "assumptions": ["clock readings are >= the epoch (TimestampFunc is replaced by a scripted clock)",
+                    "the concurrent BasicSampler job sees only interleavings the Go scheduler produces (16 goroutines x up to 3000 calls); the race detector job covers unsynchronised access"],
+    "claim": {"ref": "DESIGN.md §5 C13", "technique": "bounded-exhaustive enumeration of short call histories + property-based testing (rapid) of sampler compositions against a reference sampler model; concurrent count check",
+              "text": "Generated-input search: all call histories up to length 5 (7 in thorough) over a 7-tick clock alphabet for every Burst/Period/NextSampler combination, BasicSampler prefix counts, random nested compositions (Burst->Burst->Basic, LevelSampler slots) with non-monotonic clocks, and the same behind a Logger with level gates, global level and DisableSampling toggles, are compared call by call with a reference model. Concurrently, G goroutines sharing one BasicSampler must admit exactly ceil(sum k/N). Held on everything explored.",
+              "note": "The sequential part is deterministic. Goroutine interleavings are those the runtime happens to produce (plus -race); absence of a rare bad interleaving is not established."},
+}
+
+PROPS["C14"] = {
+    "jobs": [
+        {"name": "exhaustive", "pkg": "./c14", "run": "^TestExhaustive$", "shards": T(4, 16), "timeout": T(600, 3600)},
+        {"name": "rapid", "pkg": "./c14", "run": "^TestRapid$", "rapid": T(15000, 100000), "shards": T(1, 8), "replay": "^TestReplay$"},
+    ],
+    "assumptions": ["every MultiLevelWriter (also nested) has at least one destination", "ErrorHandler is a package global: cases run sequentially"],
+    "claim": {"ref": "DESIGN.md §5 C14", "technique": "bounded-exhaustive enumeration of (destination kind, event level, per-destination outcome) + property-based testing (rapid) incl. nested MultiLevelWriter; oracle: fan-out reference model + ErrorHandler log",
+              "text": "Generated-input search: for every combination of up to 3 destinations (plain, LevelWriter, FilteredLevelWriter), up to 2 events (3 in thorough) at 3 levels and every per-(destination,event) outcome in {ok, error, short write}, and for random larger/nested configurations, each destination must receive exactly its events once, in order, byte-identical and with their level; the logging call must return; ErrorHandler must be called exactly once per failing event with the first failing destination's error (io.ErrShortWrite for a short write) and not otherwise. Held on everything explored.",
+              "note": "Deterministic. The model numbers nested destinations depth-first."},
+}
+PROPS["C15"] = {
+    "jobs": [
+        {"name": "exhaustive", "pkg": "./c15", "run": "^TestExhaustive$", "shards": T(4, 16), "timeout": T(600, 3600)},
+        {"name": "rapid", "pkg": "./c15", "run": "^TestRapid$", "rapid": T(8000, 60000), "shards": T(2, 8), "replay": "^TestReplay$"},
+        {"name": "concurrent", "pkg": "./c15", "run": "^TestConcurrent$", "rapid": T(400, 4000), "shards": T(1, 4)},
+        {"name": "concurrent-race", "pkg": "./c15", "race": True, "run": "^TestConcurrent$", "rapid": T(100, 1000)},
+    ],
+    "assumptions": ["levels other than 10 (the separator byte); lines end in exactly one newline and contain no other",
+                    "Close ends the held set (documented: held lines of an untriggered writer are never written) and leaves the trigger latch",
+                    "concurrent job: interleavings the Go scheduler produces, plus -race"],
+    "claim": {"ref": "DESIGN.md §5 C15", "technique": "bounded-exhaustive enumeration of short histories + rapid state sequences against a TriggerLevelWriter reference model; concurrent multiset/order check with overlap detector",
+              "text": "Generated-input search: every history up to length 5 (6 in thorough) over {write at 4 levels, Trigger, Close, fresh instance} for 25 threshold pairs and both destination kinds, plus random histories over the whole int8 level range with lines crossing the pooled-buffer sizes and several instances in sequence (pool hand-over), must leave the destination equal to the model after every step. Concurrent writers must lose, duplicate or alter no line, keep per-goroutine order and never overlap in the destination. Held on everything explored.",
+              "note": "Sequential part deterministic; concurrent part limited to runtime-produced interleavings."},
+}
